@@ -1,14 +1,25 @@
 #!/bin/bash
-# usage: tools/mutant_matrix.sh [ids...]  -- runs every seeded change against the check of its own property
-# (quick tier, private scratch worktrees) and writes seeded/MATRIX.txt
+# usage: tools/mutant_matrix.sh [ids...]  -- runs every seeded change (rounds A, b, c) against the check of the
+# property it breaks (quick tier, private scratch worktrees of /repo) and writes seeded/MATRIX_RUN.txt: one line
+# per seeded change with the exit status of the check and whether the VIOLATION line carries a concrete replay.
+# (seeded/MATRIX.txt is the annotated history of how each change came to be detected.)
 cd /verif
 ids=${@:-$(ls seeded | grep '^C')}
 tmp=$(mktemp -d /tmp/mutmatrix.XXXX)
 for id in $ids; do
-  ( tools/try_mutant.sh $id $id 2>&1 | grep "^mutant=" > $tmp/$id ) &
-  while [ $(jobs -r | wc -l) -ge 4 ]; do sleep 1; done
+  chk=${id:0:3}
+  ( out=$(tools/try_mutant.sh $id $chk 2>&1 | grep "^mutant=\|PATCH-DOES-NOT-APPLY")
+    if echo "$out" | grep -q "PATCH-DOES-NOT-APPLY"; then echo "mutant=$id check=$chk PATCH-DOES-NOT-APPLY" > $tmp/$id
+    else
+      rc=$(echo "$out" | sed -n 's/.* rc=\([0-9]*\) .*/\1/p')
+      if echo "$out" | grep -q "VIOLATION property=$chk replay=[^ ]*violation"; then kind="concrete replay"
+      elif echo "$out" | grep -q "no-failing-input-found"; then kind="no-failing-input-found"
+      else kind="NOT DETECTED"; fi
+      echo "mutant=$id check=$chk rc=$rc :: $kind" > $tmp/$id
+    fi ) &
+  while [ $(jobs -r | wc -l) -ge 5 ]; do sleep 1; done
 done
 wait
-cat $tmp/* | sed 's#replay=/verif/replays/##g' > seeded/MATRIX.txt
+cat $tmp/* > seeded/MATRIX_RUN.txt
 rm -rf $tmp
-cat seeded/MATRIX.txt
+cat seeded/MATRIX_RUN.txt
